@@ -179,11 +179,11 @@ func propTable() map[string]PropSpec {
 	}
 	t["C06"] = PropSpec{
 		ID: "C06", Pkg: coordPkg, LoadPkgs: []string{"tkestack.io/kvass/pkg/sidecar"}, NativeDir: "coordinator",
-		Quick:    []HarnessRun{H("VCycle", 12, 1, 1, 0), H("VCycle", 8, 2, 1, 40), {Entry: "VUpdateTarget", Pkg: "tkestack.io/kvass/pkg/shard", Args: []int{2}, Cosim: 4}, L("VLoop", 8, 2, 1, 6, 1)},
+		Quick:    []HarnessRun{H("VCycle", 12, 1, 1, 0), H("VCycle", 8, 2, 1, 40), {Entry: "VUpdateTarget", Pkg: "tkestack.io/kvass/pkg/shard", Args: []int{2}, Cosim: 4}, L("VLoop", 8, 2, 1, 6, 1), H("VGC", 4, 2, 2), H("VGC", 4, 3, 1)},
 		Thorough: []HarnessRun{{Entry: "VUpdateTarget", Pkg: "tkestack.io/kvass/pkg/shard", Args: []int{3}, Cosim: 4}, L("VLoop", 8, 3, 1, 7, 1), L("VLoop", 4, 2, 1, 7, 2), {Entry: "VLoop", Args: []int{3, 1, 8, 2}, Subst: swr, Unwind: 40, Cosim: 4, Timeout: 30 * time.Minute}},
 		Required: []string{"c06.lone", "c06.duplicate", "shard.update.keys.same", "loop.fault", "loop.end"},
 		Prefixes: []string{"C06.", "C01.shard.update.", "C03.loop.", "C01.c.loop."},
-		Bounds:   "multi-cycle layer: the closed loop of C03 (S=2, thorough 3; K=1) with one fault at cycle 0 or 1 on any shard - a lost target POST, a shard not ready for one cycle, a sidecar restarted from its store - followed by fault-free cycles: converged within H=6 (7) cycles; thorough also two faults (the second one or two cycles after the first, any shard, any kind) at S=2 within 7 cycles and at S=3 within 8 cycles (405 260 paths); single-cycle progress lemmas from the states faults leave behind (a lone in_transfer copy; two copies on in-sync shards in every state / load / counter combination) on whole cycles at (S,K) = (1,1) and (2,1) with all shards in sync and relief off",
+		Bounds:   "multi-cycle layer: the closed loop of C03 (S=2, thorough 3; K=1) with one fault at cycle 0 or 1 on any shard - a lost target POST, a shard not ready for one cycle, a sidecar restarted from its store - followed by fault-free cycles: converged within H=6 (7) cycles; thorough also two faults (the second one or two cycles after the first, any shard, any kind) at S=2 within 7 cycles and at S=3 within 8 cycles (405 260 paths); gcTargets progress lemma at (2,2), (3,1): a completed hand-over is collected and fully qualified same-state duplicates shrink wherever in the shard list the copies sit; single-cycle progress lemmas from the states faults leave behind (a lone in_transfer copy; two copies on in-sync shards in every state / load / counter combination) on whole cycles at (S,K) = (1,1) and (2,1) with all shards in sync and relief off",
 		Assume:   wfAssumptions,
 		Outside:  append([]string{"more than two faults per run, a first fault later than cycle 1, K>=2 in the closed loop", "a shard removed by scaling as an injected fault (scale-down happens only as the coordinator's own decision in the idle-time variant)"}, cycleOutside...),
 	}
@@ -202,9 +202,9 @@ func propTable() map[string]PropSpec {
 		ID: "C20", Pkg: explPkg, LoadPkgs: []string{coordPkg}, NativeDir: "explore",
 		Quick:    []HarnessRun{{Entry: "VExploreKernel", Args: []int{1}, Cosim: 6}, {Entry: "VExploreKernel", Args: []int{2}, Cosim: 6}, {Entry: "VCycleExplore", Pkg: coordPkg, Subst: swr, Cosim: 2}, {Entry: "VExploreTable", Args: []int{2}, Cosim: 4}, {Entry: "VExploreRun", Args: []int{1, 1, 1, 2, 0}, Unwind: 40}, {Entry: "VExploreRun", Args: []int{2, 1, 1, 2, 0}, Unwind: 40}, {Entry: "VExploreRun", Args: []int{2, 1, 1, 2, 1}, Unwind: 40}},
 		Thorough: []HarnessRun{{Entry: "VExploreRun", Args: []int{1, 1, 2, 3, 0}, Unwind: 60}, {Entry: "VExploreRun", Args: []int{2, 1, 2, 2, 0}, Unwind: 60}, {Entry: "VExploreRun", Args: []int{2, 2, 1, 2, 0}, Unwind: 60}, {Entry: "VExploreRun", Args: []int{2, 2, 1, 2, 1}, Unwind: 60}, {Entry: "VExploreRun", Args: []int{3, 1, 1, 2, 1}, Unwind: 60}, {Entry: "VExploreKernel", Args: []int{1}, Cosim: 8}, {Entry: "VExploreKernel", Args: []int{2}, Cosim: 8}, {Entry: "VCycleExplore", Pkg: coordPkg, Subst: swr, Cosim: 2}, {Entry: "VExploreTable", Args: []int{3}, Cosim: 4}},
-		Required: []string{"explore.ok", "explore.failed", "explore.end", "explorecycle.ok", "explorecycle.failed", "run.retry", "run.act.update.same", "run.act.update.less", "run.act.reload.keep", "run.end"},
+		Required: []string{"explore.ok", "explore.failed", "explore.end", "explorecycle.ok", "explorecycle.failed", "explore.failed.partial", "run.retry", "run.act.update.same", "run.act.update.less", "run.act.reload.keep", "run.end"},
 		Prefixes: []string{"C20."},
-		Bounds:   "sequential kernel: Get / exploreOnce / UpdateTargets on a table of <= 2 targets with a scripted probe (success with symbolic counts < 2^30, failure, unknown job); estimate through the real UpdateScrapeResult in floating-point theory; the first-assignment clause on the observable: two real coordination cycles (one in-sync shard with room, one target) around one scripted probe with the real Explore.Get as the coordinator's estimate source; bounded thread model: the real Explore.Run with W <= 1 probe workers (thorough 2), its retry goroutines and a driver goroutine (K <= 2 targets looked up, then one of: nothing, the same targets discovered again, target 1 removed, a reload keeping the job) under every schedule with context switches at synchronisation operations and <= 2 preemptions (quick K=2: 1), at most F = 1 failing probes (thorough 2), a probe that yields in the middle, time.Sleep advancing a symbolic clock by at least its argument; checked at quiescence: every asked-for target still discovered has the estimate of its successful probe, no probe after success, one probe in flight per target, a retry not before the retry interval, queue drained, Run returns on cancel",
+		Bounds:   "sequential kernel: Get / exploreOnce / UpdateTargets on a table of <= 2 targets with a scripted probe (success with symbolic counts < 2^30, failure without a result, failure with partial counts, unknown job); estimate through the real UpdateScrapeResult in floating-point theory; the first-assignment clause on the observable: two real coordination cycles (one in-sync shard with room, one target) around one scripted probe with the real Explore.Get as the coordinator's estimate source; bounded thread model: the real Explore.Run with W <= 1 probe workers (thorough 2), its retry goroutines and a driver goroutine (K <= 2 targets looked up, then one of: nothing, the same targets discovered again, target 1 removed, a reload keeping the job) under every schedule with context switches at synchronisation operations and <= 2 preemptions (quick K=2: 1), at most F = 1 failing probes (thorough 2), a probe that yields in the middle, time.Sleep advancing a symbolic clock by at least its argument; checked at quiescence: every asked-for target still discovered has the estimate of its successful probe, no probe after success, one probe in flight per target, a retry not before the retry interval, queue drained, Run returns on cancel",
 		Assume:   []string{"the probe function (Explore.explore) is a scripted closure; logging and metrics are no-ops; the needExplore channel is a bounded FIFO", "thread model: goroutines interleave only at mutex acquisitions, channel operations, select, errgroup.Wait, time.Sleep and goroutine exit - complete for data-race-free code (the accesses of exploreOnce to the entry it probes are outside targetsLock and are treated as atomic with the surrounding step); schedule decisions are forks of the symbolic executor, counterexamples are confirmed by concrete re-execution of the SSA under the recorded schedule (a native run cannot be steered through a schedule)"},
 		Outside:  []string{"more than 2 preemptions, more than 2 workers / targets / failing probes, more than one concurrent driver action", "weak-memory effects and data races (the model is sequentially consistent at synchronisation granularity)", "real timing of the retry interval (the clock is symbolic)"},
 	}
@@ -216,11 +216,11 @@ func propTable() map[string]PropSpec {
 	}
 	t["C17"] = PropSpec{
 		ID: "C17", Pkg: discPkg, LoadPkgs: []string{explPkg}, NativeDir: "discovery",
-		Quick:    []HarnessRun{{Entry: "VDisc", Args: []int{1, 1}, Subst: discSubst, Cosim: 12}, {Entry: "VExploreTable", Pkg: explPkg, Args: []int{2}, Cosim: 8}, {Entry: "VDiscRun", Args: []int{0, 2}, Subst: discSubst, Unwind: 40}, {Entry: "VDiscRun", Args: []int{1, 1}, Subst: discSubst, Unwind: 40}, {Entry: "VDiscRun", Args: []int{2, 1}, Subst: discSubst, Unwind: 40}},
+		Quick:    []HarnessRun{{Entry: "VDisc", Args: []int{1, 1}, Subst: discSubst, Cosim: 12}, {Entry: "VExploreTable", Pkg: explPkg, Args: []int{2}, Cosim: 8}, {Entry: "VDiscRun", Args: []int{0, 2}, Subst: discSubst, Unwind: 40}, {Entry: "VDiscRun", Args: []int{1, 1}, Subst: discSubst, Unwind: 40}, {Entry: "VDiscRun", Args: []int{2, 1}, Subst: discSubst, Unwind: 40}, {Entry: "VDiscBadGroup", Subst: discSubst, Cosim: 3}},
 		Thorough: []HarnessRun{{Entry: "VDiscRun", Args: []int{0, 4}, Subst: discSubst, Unwind: 40}, {Entry: "VDiscRun", Args: []int{1, 3}, Subst: discSubst, Unwind: 40}, {Entry: "VDiscRun", Args: []int{2, 2}, Subst: discSubst, Unwind: 40}, {Entry: "VDisc", Args: []int{1, 1}, Subst: discSubst, Cosim: 16}, {Entry: "VExploreTable", Pkg: explPkg, Args: []int{3}, Cosim: 8}},
-		Required: []string{"disc.update", "disc.reload", "disc.job.updated", "disc.job.untouched", "disc.reload.kept", "disc.reload.removed", "explore.update", "explore.reload", "explore.survivor", "discrun.end"},
+		Required: []string{"disc.update", "disc.reload", "disc.job.updated", "disc.job.untouched", "disc.reload.kept", "disc.reload.removed", "explore.update", "explore.reload", "explore.survivor", "discrun.end", "badgroup.end"},
 		Prefixes: []string{"C17."},
-		Bounds:   "sequential histories: configuration with 2 jobs, a first (full or partial) discovery round, then one step - an update mentioning any subset of a known and an unknown job, or a reload that keeps / removes each job and adds one, followed by an update for a removed and the added job; 1 group of <= 1 target per job and round, each target active or dropped; snapshot isolation of ActiveTargets / DropTargets / ActiveTargetsByHash across the step; explorer table over <= 2 (3) hashes; bounded thread model: the real TargetsDiscovery.Run loop consuming one discovery round for a kept job from its channel, the driver reloading the configuration (removing or keeping the other job; or two rounds around the reload, quick with 1 preemption) and a reader goroutine taking two snapshots (ActiveTargets, ActiveTargetsByHash), under every schedule with context switches at synchronisation operations and <= 2 preemptions (thorough up to 4): the kept job is never missing from a snapshot, the latest update wins, the removed job is gone, subscribers are notified once, Run returns on cancel",
+		Bounds:   "sequential histories: configuration with 2 jobs, a first (full or partial) discovery round, then one step - an update mentioning any subset of a known and an unknown job, or a reload that keeps / removes each job and adds one, followed by an update for a removed and the added job; 1 group of <= 1 target per job and round, each target active or dropped; snapshot isolation of ActiveTargets / DropTargets / ActiveTargetsByHash across the step; a group that cannot be translated, first / in the middle / last among three, hides no other group; explorer table over <= 2 (3) hashes; bounded thread model: the real TargetsDiscovery.Run loop consuming one discovery round for a kept job from its channel, the driver reloading the configuration (removing or keeping the other job; or two rounds around the reload, quick with 1 preemption) and a reader goroutine taking two snapshots (ActiveTargets, ActiveTargetsByHash), under every schedule with context switches at synchronisation operations and <= 2 preemptions (thorough up to 4): the kept job is never missing from a snapshot, the latest update wins, the removed job is gone, subscribers are notified once, Run returns on cancel",
 		Assume:   []string{"thread model: goroutines interleave only at mutex acquisitions, channel operations, select and goroutine exit - complete for data-race-free code; the unlocked read of m.config in translateTargets is treated as atomic with the step it belongs to; schedule decisions are forks of the symbolic executor, counterexamples are confirmed by concrete re-execution of the SSA under the recorded schedule", "targetsFromGroup is replaced by a summary returning one entry per discovered address (active unless labelled drop=1); scrape.Target label accessors are summarised accordingly (its own behaviour is C15 / C02 territory); natively the real functions run on groups built to give the same outcome", "sync.Mutex Lock/Unlock are tracked (a lock taken twice, or an unlock without lock, ends the path as an error); logging is a no-op"},
 		Outside:  []string{"the data race itself between the unlocked read of the configuration map in translateTargets and ApplyConfig (the model switches threads at synchronisation operations only)", "more than 3 preemptions, more than one concurrent update and one reload, more than one reader", "more than one step after the first round in the sequential harness; more than 2 jobs"},
 	}
@@ -229,9 +229,9 @@ func propTable() map[string]PropSpec {
 		ID: "C15", Pkg: discPkg, NativeDir: "discovery",
 		Quick:    []HarnessRun{{Entry: "VHash", Args: []int{0}, Subst: hashSubst, Unwind: 40, Cosim: 2}, {Entry: "VHash", Args: []int{2}, Subst: hashSubst, Unwind: 40, Cosim: 2}, {Entry: "VHashDedupe", Subst: hashSubst, Unwind: 40, Cosim: 2}},
 		Thorough: []HarnessRun{{Entry: "VHash", Args: []int{0}, Subst: hashSubst, Unwind: 40, Cosim: 4}, {Entry: "VHash", Args: []int{1}, Subst: hashSubst, Unwind: 40, Cosim: 2}, {Entry: "VHash", Args: []int{2}, Subst: hashSubst, Unwind: 40, Cosim: 3}, {Entry: "VHashDedupe", Subst: hashSubst, Unwind: 40, Cosim: 4}},
-		Required: []string{"hash.two.runs", "hash.sensitive", "dedupe.same", "dedupe.two", "hash.end"},
+		Required: []string{"hash.two.runs", "hash.sensitive", "hash.sensitive.query", "dedupe.same", "dedupe.two", "hash.end"},
 		Prefixes: []string{"C15."},
-		Bounds:   "targetsFromGroup / populateLabels / targetHash / labelsWithoutConfigParam / supportInvalidLabelName (and labels.New, labels.Builder, sort.Sort, scrape.NewTarget / Target.URL from source) on a group of 1 target (dedupe: 2 targets) with the labels __address__ (concrete, with and without port), foo and an invalid name \"bad-name\" with symbolic values, an optional __meta_ label with a symbolic value, every split of the labels between group and target and every map-iteration order; no relabel rules; sensitivity: two targets differing only in the (symbolic, different) value of one surviving label - ordinary (foo) or reserved but neither __meta_ nor URL-forming (__tmp_x, __scrape_interval__) - can get different hashes (satisfiability query with the hash functions uninterpreted: holds exactly when the label value reaches the hash input)",
+		Bounds:   "targetsFromGroup / populateLabels / targetHash / labelsWithoutConfigParam / supportInvalidLabelName (and labels.New, labels.Builder, sort.Sort, scrape.NewTarget / Target.URL from source) on a group of 1 target (dedupe: 2 targets) with the labels __address__ (concrete, with and without port), foo and an invalid name \"bad-name\" with symbolic values, an optional __meta_ label with a symbolic value, every split of the labels between group and target and every map-iteration order; no relabel rules; sensitivity: two targets differing only in the (symbolic, different) value of one surviving label - ordinary (foo) or reserved but neither __meta_ nor URL-forming (__tmp_x, __scrape_interval__) - can get different hashes (satisfiability query with the hash functions uninterpreted: holds exactly when the label value reaches the hash input), and two jobs whose params differ only in the second value of a multi-valued parameter (carried by no label: the URL query must reach the hash)",
 		Assume:   []string{"xxhash (labels.Labels.Hash) and FNV-64a are uninterpreted functions of exactly what is fed to them (label names and values in order; the formatted label hash; the URL string): equal inputs give equal hashes, nothing is assumed about different inputs", "relabel.Process is the identity (the job has no relabel rules); net.SplitHostPort, CheckTargetAddress and the label-name / label-value validity tests run on concrete strings", "symbolic label values range over non-empty valid UTF-8 strings"},
 		Outside:  []string{"'targets that differ in any label or URL component get different hashes' as such is collision-freeness of xxhash/FNV and is not a bounded solver query; what is decided is that every surviving label reaches the hash input (sensitivity clause)", "stability across processes and restarts beyond independence of iteration order, addresses and time (any such dependence would be an un-stubbed call and abort the path)", "relabel programs (C02)"},
 	}
